@@ -138,7 +138,7 @@ def part_a(case: dict, g: dict, rng) -> tuple[list[dict], dict, bool]:  # noqa: 
                 viols.append(core.viol(f"symbolic equations differ from the numeric derivatives ({setting}) [{label}]", None, variables=bad, symbolic=got, numeric=num,
                                        state=st, time=t, parameters=pvals, eqs=[str(e)[:200] for e in sm.eqs], **ctx))
                 return viols, counters, True
-            if jac is not None and not lattice and not ("equality_gate" in feats and len({round(float(x), 9) for x in st.values()} | {1.0}) <= len(st)):
+            if jac is not None and not lattice and not ("equality_gate" in feats and (len({round(float(x), 9) for x in st.values()} | {1.0}) <= len(st) or _on_an_equality_gate(m2, spec, st, t))):
                 jv, err = eval_sym(list(jac), sm, pvals | st, t)
                 if jv is None:
                     viols.append(core.viol("symbolic Jacobian cannot be evaluated", None, problem=err, **ctx))
@@ -286,6 +286,18 @@ def part_b(case: dict, rng) -> tuple[list[dict], dict, bool]:  # noqa: ANN001
                 if any(not core.close(last[k], exact[k], 1e-4, 1e-6) for k in exact):
                     viols.append(core.viol(f"trajectory with Jacobian differs from the closed-form solution [{method}]", None, got=last, expected=exact, **ctx))
     return viols, counters, jac_used
+
+
+def _on_an_equality_gate(model, spec: dict, st: dict, t: float) -> bool:  # noqa: ANN001
+    """Is an operand pair of an equality-gated rate law (t_eqgate: `s == e`, `s != 1.0`) equal, or within the step of the
+    finite differences, at this state? (a derived quantity can equal a state value: 2 * 0.51 == 1.02) No derivative exists there."""
+    args = model.get_args(st, t)
+    for c in spec["components"]:
+        if c["kind"] == "reaction" and str(c["fn"]).endswith(":t_eqgate"):
+            a, e = float(args[c["args"][0]]), float(args[c["args"][1]])
+            if abs(a - e) <= 1e-4 * max(1.0, abs(a)) or abs(a - 1.0) <= 1e-4:
+                return True
+    return False
 
 
 class _capture:  # noqa: N801
